@@ -27,9 +27,12 @@ for chk in man["checks"]:
     names, axioms = [], set()
     for t in ths:
         if isinstance(t, dict) and "theorem" in t:
-            names.append(t["theorem"])
             for a in t.get("axioms", []):
                 axioms.add(a.split(":")[0].strip())
+    names = [t for t in cov.get("theorems", []) if isinstance(t, str)]
+    for tb in cov.get("trusted_base", []):
+        if isinstance(tb, str) and "Classical_Prop.classic" in tb:
+            axioms.add("Classical_Prop.classic")
     ps = parts(cfg)
     corr = []; sem = []
     for p in ps:
@@ -42,7 +45,7 @@ for chk in man["checks"]:
         return o
     corr, sem = uniq(corr), uniq(sem)
     kf = cov.get("known_findings_reproduced", [])
-    shown = ", ".join(f"`{n}`" for n in names[:14]) + (f", … ({len(names)} in all)" if len(names) > 14 else "")
+    shown = f"{len(names)}: " + ", ".join(f"`{n}`" for n in names[:40]) + (", …" if len(names) > 40 else "")
     rows.append((pid, chk["level_claimed"]["category"],
                  shown, ", ".join(sorted(axioms)) or "none",
                  f"{cov.get('correspondence_cases', 0)} corr ({', '.join('`'+c+'`' for c in corr[:8])}{', …' if len(corr) > 8 else ''}); "
